@@ -21,7 +21,7 @@ RULE = ('Block1014 is driven with position-coded data. Enumerated: every interna
         'all-fill block. Non-trivial = data reaches or crosses a block edge; distinct by (state, path, length) or history digest.')
 ASSUMPTIONS = ['the blocker is finalised exactly once at the end of a history (finalise, seek(0) or close)',
                'one-shot block_1014 is compared on the same data; an optional trailing all-fill block is allowed on either side',
-               'write is handed bytes, bytearray and memoryview objects: the blocker stands in for a binary file, whose write takes any bytes-like object, and the unchanged code accepts all three']
+               'write is handed bytes, bytearray and memoryview objects (fresh ones, and one buffer refilled per write and overwritten once write has returned): the blocker stands in for a binary file, whose write takes any bytes-like object, and the unchanged code accepts all three']
 
 TOTAL = 1012 * 6 + 50
 POS = b''.join(i.to_bytes(3, 'big') for i in range(1, TOTAL // 3 + 2))[:TOTAL]
@@ -45,7 +45,32 @@ def paths_to_state(s):
     return [[1012 - s], [1012, 1012 - s]]
 
 
-DATA_KINDS = {'bytes': bytes, 'bytearray': bytearray, 'memoryview': memoryview}
+DATA_KINDS = {'bytes': bytes, 'bytearray': bytearray, 'memoryview': memoryview, 'reused-bytearray': None, 'reused-memoryview': None}
+
+
+class Reused:
+    """the usual copy loop: ONE buffer, refilled for every write and scribbled over as soon as write() has returned
+    (write must have consumed the data by then, as a file's write does)"""
+
+    def __init__(self, kind):
+        self.kind = kind
+        self.buf = bytearray(8192)
+        self.n = 0
+
+    def load(self, data):
+        self.n = len(data)
+        if self.kind == 'reused-bytearray':
+            self.buf[:] = data
+            return self.buf
+        self.buf[:self.n] = data
+        return memoryview(self.buf)[:self.n]
+
+    def scribble(self):
+        if self.kind == 'reused-bytearray':
+            self.buf[:] = b'\xee' * len(self.buf)
+        else:
+            self.buf[:self.n] = b'\xee' * self.n
+
 
 
 def run_history(chunks, finaliser='finalise', check_prefix=False, kind='bytes'):
@@ -55,12 +80,19 @@ def run_history(chunks, finaliser='finalise', check_prefix=False, kind='bytes'):
     b = mciipm.Block1014(f)
     off = 0
     wrap = DATA_KINDS[kind]
+    reused = Reused(kind) if wrap is None else None
     # a second blocker over another file receives writes in between (two outputs open at once): each keeps its own state
     of, other, ooff = (KeepIO(), None, 0)
     if len(chunks) % 2 == 0:
         other = mciipm.Block1014(of)
     for n in chunks:
-        b.write(wrap(POS[off:off + n]))
+        if reused is not None:
+            piece = reused.load(POS[off:off + n])
+            b.write(piece)
+            del piece
+            reused.scribble()
+        else:
+            b.write(wrap(POS[off:off + n]))
         off += n
         if other is not None:
             k = (n * 5 + 3) % 1400
@@ -166,7 +198,7 @@ def sweep(ctx, states, full):
                 n += 1
                 if base + ln >= 1012:
                     nt += 1
-                kind = ('bytes', 'bytes', 'bytearray', 'memoryview')[(s + ln) % 4]
+                kind = ('bytes', 'bytes', 'bytearray', 'memoryview', 'reused-bytearray', 'reused-memoryview')[(s + ln) % 6]
                 res = check_case(path + [ln], kind=kind)
                 if res:
                     ctx.report(res[0], {'chunks': path + [ln], 'finaliser': 'finalise', 'kind': kind}, res[1])
@@ -231,7 +263,7 @@ OP = st.one_of(
     st.tuples(st.just('abs'), uniform(0, 3100)),
 )
 HISTORY = st.tuples(st.lists(OP, min_size=1, max_size=14), st.sampled_from(['finalise', 'seek', 'close']),
-                    st.sampled_from(['bytes', 'bytes', 'bytearray', 'memoryview']))
+                    st.sampled_from(['bytes', 'bytes', 'bytearray', 'memoryview', 'reused-bytearray', 'reused-memoryview']))
 
 
 def resolve(ops):
